@@ -1126,7 +1126,7 @@ pub fn run(run: &Run) {
 
     // (b) synthetic
     let quick = run.quick();
-    run.prop("synthetic", run.pick(20_000, 600_000), input_strategy, |inp, l| {
+    run.prop("synthetic", run.pick(20_000, 400_000), input_strategy, |inp, l| {
         let dir = work_dir(&format!("syn{}", l.tid));
         // a sample of the emitted files is also read by the compiler (validates my text reader)
         let cross = !l.frozen && l.tid < 4 && if quick { l.cases == 5 } else { l.cases % 4000 == 5 };
@@ -1223,7 +1223,7 @@ pub fn run(run: &Run) {
 
     // (c) pinned variations
     let lines = [pinned_lines(0), pinned_lines(1)];
-    run.prop("pinned_variations", run.pick(64, 3_200), var_strategy, |(which, ops), l| {
+    run.prop("pinned_variations", run.pick(64, 2_000), var_strategy, |(which, ops), l| {
         let dir = work_dir(&format!("var{}", l.tid));
         check_variation(*which, ops, &lines[*which as usize], &dir, l)
     });
